@@ -38,7 +38,7 @@ def shards(tier, seed):
 
 def floors(tier):
     f = {"pairs:equal_state_diff_presentation": 1000, "pairs:sign_only": 1000, "fidelity:calls": 30000,
-         "eq:calls": 10000, "canonical:calls": 10000, "infidelity:calls": 3000, "pairs:nonzero_signs": 10000, "pairs:low_sign_presentations": 500, "metric_reuse:evaluations": 2000}
+         "eq:calls": 10000, "canonical:calls": 10000, "infidelity:calls": 3000, "pairs:nonzero_signs": 10000, "pairs:low_sign_presentations": 500, "metric_reuse:evaluations": 2000, "pairs:n>=12": 100}
     for v in ("0", "0.125", "0.25", "0.5", "1"):
         f["overlap3:" + v] = 1
     return f
@@ -78,6 +78,9 @@ def run_shard(spec, ctx):
     else:
         for k in range(spec["count"]):
             n = int(rng.integers(2, spec["nmax"] + 1))
+            if k % 25 == 7:
+                n = int(rng.integers(12, 41))       # sizes at which sums of phase terms pass 127 / 255 and dense checks are impossible
+                ctx.count("pairs:n>=12")
             fam = ["word", "sign", "same", "indep"][k % 4]
             a = stab.y_heavy_state(rng, n) if k % 3 == 0 else pauli.random_stabilizer_group(rng, n)
             if fam == "word":
